@@ -705,7 +705,12 @@ def run(prior, probe, mc_between=None, with_prior=True, mc_script=None):
     else:
         state["cache_unmeasured"] = 1
     state["cache_disabled"] = int(getattr(pytrs.TRS, "_USE_CACHE", True) is False)
-    state["uid"] = getattr(pytrs.Tract, "_Tract__UID", -1)
+    uid_ = getattr(pytrs.Tract, "_Tract__UID", None)
+    if isinstance(uid_, int) and not isinstance(uid_, bool):
+        state["uid"] = uid_
+    else:
+        state["uid"] = -1              # a refactor changed the counter:
+        state["uid_unmeasured"] = 1    # the probe still runs, unmeasured
     state["mc_changes"] = mc_changes
     state["mc_at_probe"] = list(plan_mc)
 
